@@ -7,10 +7,15 @@ import scancheck as SC
 import vlib
 
 
-def big_class(sc, field, impl, exp):
-    """Known-finding class for a numeric mismatch against the specification:
-    only when the scenario really contains an object of >= 2^32-1 bytes."""
-    if any(sz >= 2**32 - 1 for sz in sc.sizes):
+CLAMPED_SUMS = ("unique_blob_size", "max_expanded_blob_size", "unique_tree_size", "unique_commit_size")
+
+
+def big_class(sc, field, impl, exp, model=None):
+    """Known-finding class for a numeric mismatch against the specification.  Narrow: the scenario really contains an
+    object of >= 2^32-1 bytes, the field is one of the 64-bit size totals, and the implementation's value is exactly
+    the one obtained by clamping each object size to 2^32-1 before summing (= the value of the model of the code).
+    Any other mismatch in the same scenario (a wrapped size, a wrong 32-bit maximum, ...) is a new violation."""
+    if field in CLAMPED_SUMS and any(sz >= 2**32 - 1 for sz in sc.sizes) and model is not None and impl == model:
         return "object-size-ge-4GiB-clamped-before-64bit-sum"
     return None
 
@@ -59,7 +64,9 @@ def one_case(eng, res, sc, args, opts, explicit, order, fields, what, real=False
         res.violations.append(vlib.Violation("%s: model reports %s where the implementation succeeded" % (what, mv), inp,
                                              nofail=True))
         return vals
-    bad_spec = SC.compare_fields(res, what, inp, vals, sv, fields, cls_fn=lambda f, a, b: big_class(sc, f, a, b),
+    mvals = mv if not isinstance(mv, str) else None
+    bad_spec = SC.compare_fields(res, what, inp, vals, sv, fields,
+                                 cls_fn=lambda f, a, b: big_class(sc, f, a, b, mvals[S.HIST_KEYS.index(f)] if mvals else None),
                                  label="specification (true value saturated)")
     if bad_spec == 0:
         for f in fields:
